@@ -414,21 +414,22 @@ def build(spec, registry, top=True, prelude=None):
         # queried, then re-wired to the scenario's edges (link counts unchanged): the run
         # must depend on the requirements as they are when it starts, not on anything
         # computed earlier
-        preds = {}
+        present = {(i, j) for i, j in spec['edges']}
+        n_mem = len(objs)
+        free = [(w, k) for k in range(n_mem) for w in range(k) if (w, k) not in present]
         for i, j in spec['edges']:
-            preds.setdefault(j, set()).add(i)
-        for i, j in spec['edges']:
-            wrong = [k for k in range(j) if k != i and k not in preds[j]]
-            if wrong and (i + j) % 2 == 0:
-                w = wrong[(i + j) % len(wrong)]
-                preds[j].add(w)
-                decoys.append((j, w, i))
-    rewired = {(j, i) for j, w, i in decoys}
+            if free and (i + j) % 2 == 0:
+                # the replacement link may sit anywhere (lower -> higher index keeps the
+                # graph acyclic): entry jobs, successors and in-degrees all differ from the
+                # final graph, the number of links does not
+                w, k = free.pop((i * 7 + j) % len(free))
+                decoys.append((j, i, k, w))
+    rewired = {(j, i) for j, i, k, w in decoys}
     for i, j in spec['edges']:
         if (j, i) not in rewired:
             objs[j].requires(objs[i])
-    for j, w, i in decoys:
-        objs[j].requires(objs[w])
+    for j, i, k, w in decoys:
+        objs[k].requires(objs[w])
     cls = VPureScheduler if (top and spec.get('cls') == 'pure') else VScheduler
     ordered = [objs[i] for i in spec.get('order', range(len(objs)))]
     how = spec.get('build', 'ctor')
@@ -470,8 +471,8 @@ def build(spec, registry, top=True, prelude=None):
 
 def rewire(prelude):
     for sch, members, dec in prelude:
-        for j, w, i in dec:
-            members[j].requires(members[w], remove=True)
+        for j, i, k, w in dec:
+            members[k].requires(members[w], remove=True)
             members[j].requires(members[i])
 
 
